@@ -1,0 +1,25 @@
+//go:build verif
+
+package gtree
+
+import "sync/atomic"
+
+var verifHook atomic.Pointer[func(string)]
+
+// verifPoint marks a pipeline hand-over point. With the "verif" build tag a test
+// harness can install a function that is called at every such point (to record which
+// points a run reached and to inject delays or yields).
+func verifPoint(name string) {
+	if f := verifHook.Load(); f != nil {
+		(*f)(name)
+	}
+}
+
+// VerifSetHook installs (or, with nil, removes) the function called by verifPoint.
+func VerifSetHook(f func(string)) {
+	if f == nil {
+		verifHook.Store(nil)
+		return
+	}
+	verifHook.Store(&f)
+}
